@@ -54,21 +54,29 @@ def install(py7zr, stream=True, aes=True):
             return _read_data
 
         def mk_dec(orig):
-            def _decompress(self, data, max_length):
-                r = orig(self, data, max_length)
+            def _decompress(self, data, max_length, *a, **kw):
+                r = orig(self, data, max_length, *a, **kw)
                 self._vt = len(r)
+                self._vcalls.append((len(data), len(r)))
                 return r
             return _decompress
 
         def mk_decompress(orig):
             def decompress(self, fp, max_length=-1):
                 cur = len(self._buf) - self._pos
-                self._vd, self._vt = 0, -1
+                self._vd, self._vt, self._vcalls = 0, -1, []
+                try:
+                    h = any(self._unpacked[i] < self._unpacksizes[i] and getattr(c, "needs_input", True) is False
+                            for i, c in enumerate(self.chain))
+                except Exception:  # noqa
+                    h = False
                 res = orig(self, fp, max_length)
                 tr = getattr(self, "_vtrace", None)
                 if tr is not None and max_length >= 0:
+                    calls = self._vcalls
+                    dr = calls[0][1] if (calls and calls[0][0] == 0 and h) else -1
                     tr.append({"e": "call", "m": int(max_length), "cur": cur, "d": self._vd, "t": self._vt, "res": len(res),
-                               "buf": len(self._buf) - self._pos, "consumed": int(self.consumed)})
+                               "buf": len(self._buf) - self._pos, "consumed": int(self.consumed), "h": bool(h), "dr": dr})
                 return res
             return decompress
 
